@@ -502,8 +502,8 @@ def run_shard(ctx):
         mon.close()
 
 
-REQUIRE = [("produce_ops", 2000, "produce operations"), ("consume_ops", 3000, "consume operations"), ("trace_key_identity_checked", 500, "key identity trace checks"),
-           ("keyset_exports", 200, "key set exports")]
+REQUIRE = [("produce_ops", 600, "produce operations"), ("consume_ops", 900, "consume operations"), ("trace_key_identity_checked", 150, "key identity trace checks"),
+           ("keyset_exports", 60, "key set exports")]
 
 
 def replay(ctx, case):
